@@ -439,6 +439,9 @@ class OpaquePubKey(PubKey):  # pragma: no cover
     def __pubkey__(self):
         return NotImplemented
 
+    def __len__(self):
+        return len(self.data)
+
     def __bytearray__(self):
         return self.data
 
